@@ -587,66 +587,68 @@ class Processes:
             # Note: We read in larger chunks for efficiency, but only process ONE
             # command per reactor loop iteration via received_async() to match sync behavior
             fd = self._get_stdout(process_name).fileno()
-            raw_data = os.read(fd, 16384)
-            buf = str(raw_data, 'ascii')
+            # one read per callback while the process lives; once it has exited, what it wrote before is all in
+            # the pipe already and is read to the end (EOF) before the process is replaced: one read may not
+            # hold all of it, and the lines left behind would never be executed
+            while True:
+                try:
+                    raw_data = os.read(fd, 16384)
+                except BlockingIOError:
+                    if poll is None:
+                        raise
+                    raw_data = b''  # exited, yet something still holds the pipe open: nothing more to wait for
+                buf = str(raw_data, 'ascii')
 
-            if buf == '' and poll is not None:
-                # Process exited - EOF received
-                # CRITICAL: Remove reader BEFORE calling _handle_problem to avoid race
-                if self._async_mode and self._loop:
-                    try:
-                        self._loop.remove_reader(fd)
-                        log.debug(
-                            lazymsg('async.reader.removed.exit process={p} fd={fd}', p=process_name, fd=fd), 'processes'
-                        )
-                    except (ValueError, OSError):
-                        pass  # Already removed or FD closed
-                self._handle_problem(process_name)
-                return
+                if buf == '' and poll is not None:
+                    # Process exited - EOF received
+                    # CRITICAL: Remove reader BEFORE calling _handle_problem to avoid race
+                    if self._async_mode and self._loop:
+                        try:
+                            self._loop.remove_reader(fd)
+                            log.debug(
+                                lazymsg('async.reader.removed.exit process={p} fd={fd}', p=process_name, fd=fd),
+                                'processes',
+                            )
+                        except (ValueError, OSError):
+                            pass  # Already removed or FD closed
+                    self._handle_problem(process_name)
+                    return
 
-            # Buffer incomplete lines
-            raw = self._buffer.get(process_name, '') + buf
-            if '\n' not in raw and len(raw) > self.MAX_COMMAND_SIZE:
-                log.error(
-                    lazymsg('api.command.oversized process={pn} size={size}', pn=process_name, size=len(raw)),
-                    'processes',
-                )
-                self._buffer.pop(process_name, None)
-                self._handle_problem(process_name)
-                return
-
-            # Extract complete lines and queue as commands
-            # Note: We queue all available commands here, but received_async() will
-            # yield them ONE at a time to ensure proper interleaving with message sending
-            while '\n' in raw:
-                line, raw = raw.split('\n', 1)
-                line = line.rstrip()
-
-                if line.startswith('debug '):
-                    log.warning(
-                        lazymsg('api.debug.received process={pn} info={info}', pn=process_name, info=line[6:]), 'api'
+                # Buffer incomplete lines
+                raw = self._buffer.get(process_name, '') + buf
+                if '\n' not in raw and len(raw) > self.MAX_COMMAND_SIZE:
+                    log.error(
+                        lazymsg('api.command.oversized process={pn} size={size}', pn=process_name, size=len(raw)),
+                        'processes',
                     )
-                else:
-                    log.debug(
-                        lazymsg('api.command.received process={pn} command={ln}', pn=process_name, ln=line), 'processes'
-                    )
-                    # Queue command for processing
-                    self._command_queue.append((process_name, formated(line)))
+                    self._buffer.pop(process_name, None)
+                    self._handle_problem(process_name)
+                    return
 
-            self._buffer[process_name] = raw
+                # Extract complete lines and queue as commands
+                # Note: We queue all available commands here, but received_async() will
+                # yield them ONE at a time to ensure proper interleaving with message sending
+                while '\n' in raw:
+                    line, raw = raw.split('\n', 1)
+                    line = line.rstrip()
 
-            # Check if process exited
-            if poll is not None:
-                # CRITICAL: Remove reader BEFORE calling _handle_problem to avoid race
-                if self._async_mode and self._loop:
-                    try:
-                        self._loop.remove_reader(fd)
-                        log.debug(
-                            lazymsg('async.reader.removed.exit process={p} fd={fd}', p=process_name, fd=fd), 'processes'
+                    if line.startswith('debug '):
+                        log.warning(
+                            lazymsg('api.debug.received process={pn} info={info}', pn=process_name, info=line[6:]),
+                            'api',
                         )
-                    except (ValueError, OSError):
-                        pass  # Already removed or FD closed
-                self._handle_problem(process_name)
+                    else:
+                        log.debug(
+                            lazymsg('api.command.received process={pn} command={ln}', pn=process_name, ln=line),
+                            'processes',
+                        )
+                        # Queue command for processing
+                        self._command_queue.append((process_name, formated(line)))
+
+                self._buffer[process_name] = raw
+
+                if poll is None:
+                    break
 
         except OSError as exc:
             # On error, try to remove reader to prevent callback loop
